@@ -346,7 +346,21 @@ def canon_value(v):
     return ("other", repr(v))
 
 
-def run_impl(cfg, ops, script, choices=(), replies=(), make_client=None, peer=None, reply_by_op=None):
+def apply_op_kw(cl, op):
+    """read operations with their defaults passed by keyword (the calling convention common to the client classes)"""
+    code = op[0]
+    if code == 3:
+        return cl.get(op[1], default=op[2])
+    if code == 4:
+        return cl.gets(op[1], default=op[2], cas_default=op[3])
+    if code == 5:
+        return cl.gat(op[1], expire=op[2], default=op[3])
+    if code == 6:
+        return cl.gats(op[1], expire=op[2], default=op[3], cas_default=op[4])
+    return apply_op(cl, op)
+
+
+def run_impl(cfg, ops, script, choices=(), replies=(), make_client=None, peer=None, reply_by_op=None, apply=None):
     """Run the real Client; returns (results, trace, final sid, unused script items, unused choices, world)."""
     from pymemcache.client.base import Client
     c = dict(DEFAULT_CFG)
@@ -360,7 +374,7 @@ def run_impl(cfg, ops, script, choices=(), replies=(), make_client=None, peer=No
     for i, op in enumerate(ops):
         world.current_op = i
         try:
-            results.append(("o", canon_value(apply_op(cl, op))))
+            results.append(("o", canon_value((apply or apply_op)(cl, op))))
         except BaseException as e:  # noqa
             results.append(("e", core.exn_name(e)))
         sk = getattr(cl, "sock", None)
@@ -425,7 +439,7 @@ def apply_pooled_op(pc, op):
     return apply_op(pc, op)
 
 
-def run_pooled(cfg, pcfg, ops, script, choices=(), replies=(), clock=(), reply_by_op=None):
+def run_pooled(cfg, pcfg, ops, script, choices=(), replies=(), clock=(), reply_by_op=None, apply=None):
     """Run the real PooledClient; -> (per-op (result, used, free), trace, unused script, unused choices, created, world)"""
     from pymemcache.client.base import PooledClient, Client
     c = dict(DEFAULT_CFG)
@@ -451,7 +465,7 @@ def run_pooled(cfg, pcfg, ops, script, choices=(), replies=(), clock=(), reply_b
     for i, op in enumerate(ops):
         world.current_op = i
         try:
-            r = ("o", canon_value(apply_pooled_op(p, op)))
+            r = ("o", canon_value((apply or apply_pooled_op)(p, op)))
         except BaseException as e:  # noqa
             r = ("e", core.exn_name(e))
         results.append((r, len(p.client_pool.used), len(p.client_pool.free)))
